@@ -215,6 +215,8 @@ def run(ctx):
         nd = [n for n in list(m.imports) + m.stars if n.split('.')[0] in ('random', 'time', 'os', 'secrets', 'datetime', 'uuid')]
         ctx.check('%s no nondeterministic input' % rel, not nd, 'imports %s' % nd, rel)
 
+    dependencies(ctx, ['crysp/aes.py', 'crysp/blake.py', 'crysp/hmac.py', 'crysp/keccak.py', 'crysp/md.py', 'crysp/mode.py', 'crysp/nilsimsa.py', 'crysp/padding.py', 'crysp/salsa20.py', 'crysp/sha.py', 'crysp/skein.py', 'crysp/tlsh.py', 'crysp/utils/knapsack.py'], 'C10')
+
 
 def _overlap(a, b):
     if len(a) == 2 and len(b) == 2:
